@@ -53,7 +53,7 @@ def bases(ctx, n, salt="base"):
     return out
 
 
-MAX_BASE_LINES = 200
+MAX_BASE_LINES = 280
 
 
 def nbases(ctx):
